@@ -24,7 +24,29 @@ def run(ctx):
     # (2) expression models: helper functions exactly when used
     trees = ctx.gen("Codegen", "Gen_Codegen.tla", "Gen_Codegen.cfg", "trees", workers=8, heap="8g")
     scen = os.path.join(ctx.work, "models.scen.ndjson")
-    nmodels = batch(trees, scen, 6 if ctx.quick else 2)
+    # a tree that uses a helper-requiring operator gets a model of its own (one environment): "exactly when used" cannot be seen
+    # in a model that also uses the neighbouring operators; the other trees are batched
+    import json
+    HELPER_OPS = {"xor", "min", "max", "sec", "csc", "cot", "sech", "csch", "coth", "arcsec", "arccsc", "arccot", "arcsech", "arccsch", "arccoth",
+                  "eq", "neq", "lt", "leq", "gt", "geq", "and", "or", "not"}
+    plain = os.path.join(ctx.work, "trees.plain.ndjson")
+    singles, seen = [], set()
+    with open(plain, "w") as out:
+        for line in open(trees):
+            sc = json.loads(line)
+            if HELPER_OPS & set(sc["ops"]):
+                key = json.dumps(sc["tree"], sort_keys=True)
+                if key not in seen and (not ctx.quick or len(set(sc["ops"])) <= 4):
+                    seen.add(key)
+                    singles.append(sc)
+            else:
+                out.write(line)
+    nmodels = batch(plain, scen, 6 if ctx.quick else 2)
+    with open(scen, "a") as out:
+        for sc in singles:
+            out.write(json.dumps({"env": sc["env"], "envv": sc["envv"], "eqs": [{"tree": sc["tree"], "expect": sc["expect"]}]}, separators=(",", ":")) + "\n")
+    nmodels += len(singles)
+    ctx.cov["helper_singleton_models"] = len(singles)
     trace = ctx.execute("codegen", scen, timeout_s=120)
     ctx.validate("Codegen", "Trace_Codegen.tla", "Trace_C17.cfg", trace, "codegen", parallel=12)
     ctx.cov["programs"] = (programs + nmodels) * 2
